@@ -200,4 +200,62 @@ theorem RWorld.abs_inplace (w : RWorld) (hs : w.Sep) (i : Nat) (hi : i < w.objs.
       have := disjoint_of_nodup_flatten (w.objs.map (fun o : RObj => o.refs)) h2' i j (by simpa using hi) (by simpa using hj) hij
       simpa using this
 
+theorem RWorld.abs_copy (w : RWorld) (hs : w.Sep) (i : Nat) (hi : i < w.objs.length) :
+    (w.copy i).abs = w.abs ++ [w.objs[i].val w.heap] := by
+  have hget : w.objs.getD i ⟨[]⟩ = w.objs[i] := by simp [List.getD_eq_getElem?_getD, hi]
+  have hget' : w.objs[i]?.getD ⟨[]⟩ = w.objs[i] := by simp [hi]
+  have := w.abs_alloc hs (RObj.val w.heap w.objs[i])
+  simpa [RWorld.copy, RWorld.construct, RObj.deepCopy, RObj.val, hget, hget'] using this
+
+theorem RWorld.copy_last (w : RWorld) (i : Nat) (hi : i < w.objs.length) :
+    ∃ h : w.objs.length < (w.copy i).objs.length,
+      (w.copy i).objs[w.objs.length] = ⟨List.range' w.heap.length (w.objs[i]).refs.length⟩ ∧
+      (w.copy i).objs[w.objs.length].val (w.copy i).heap = w.objs[i].val w.heap := by
+  have hget : w.objs.getD i ⟨[]⟩ = w.objs[i] := by simp [List.getD_eq_getElem?_getD, hi]
+  have hget' : w.objs[i]?.getD ⟨[]⟩ = w.objs[i] := by simp [hi]
+  have hn : w.objs.length < (w.copy i).objs.length := by simp [RWorld.copy, RWorld.construct]
+  have hobj : (w.copy i).objs[w.objs.length] = ⟨List.range' w.heap.length (w.objs[i]).refs.length⟩ := by
+    simp [RWorld.copy, RWorld.construct, RObj.deepCopy, hget, hget']
+  refine ⟨hn, hobj, ?_⟩
+  have := RObj.deepCopy_val w.heap w.objs[i]
+  rw [hobj]
+  simpa [RWorld.copy, RWorld.construct, RObj.deepCopy, hget, hget'] using this
+
+/-- the non-mutating form: all existing objects untouched, one more object with the transformed values -/
+theorem RWorld.abs_copied (w : RWorld) (hs : w.Sep) (i : Nat) (hi : i < w.objs.length) (ops : List ArrOp)
+    (hl : ops.length = (w.objs[i]).refs.length) :
+    (w.copied i ops).abs = w.abs ++ [List.zipWith (fun op a => op.apply a) ops (w.objs[i].val w.heap)] := by
+  have hc := w.abs_copy hs i hi
+  have hs' : (w.copy i).Sep := w.Sep_construct hs _
+  obtain ⟨hn, hobj, hval⟩ := w.copy_last i hi
+  unfold RWorld.copied
+  rw [(w.copy i).abs_inplace hs' _ hn ops (by rw [hobj]; simpa using hl), hc, hval]
+  have : w.objs.length = w.abs.length := by simp [RWorld.abs]
+  rw [this, List.set_append_right _ _ (le_refl _)]
+  simp
+
+/-- … and a later in-place operation on the result does not reach the original either -/
+theorem RWorld.abs_copied_inplace (w : RWorld) (hs : w.Sep) (i : Nat) (hi : i < w.objs.length) (ops ops2 : List ArrOp)
+    (hl : ops.length = (w.objs[i]).refs.length) (hl2 : ops2.length = (w.objs[i]).refs.length) :
+    ((w.copied i ops).inplace w.objs.length ops2).abs =
+      w.abs ++ [List.zipWith (fun op a => op.apply a) ops2 (List.zipWith (fun op a => op.apply a) ops (w.objs[i].val w.heap))] := by
+  have hs' : (w.copied i ops).Sep := RWorld.Sep_inplace _ (w.Sep_construct hs _) _ _
+  obtain ⟨hn, hobj, hval⟩ := w.copy_last i hi
+  have hn' : w.objs.length < (w.copied i ops).objs.length := by simpa [RWorld.copied, RWorld.inplace] using hn
+  have hobj' : (w.copied i ops).objs[w.objs.length] = ⟨List.range' w.heap.length (w.objs[i]).refs.length⟩ := by
+    simpa [RWorld.copied, RWorld.inplace] using hobj
+  have habs := w.abs_copied hs i hi ops hl
+  have hlast : (w.copied i ops).objs[w.objs.length].val (w.copied i ops).heap =
+      List.zipWith (fun op a => op.apply a) ops (w.objs[i].val w.heap) := by
+    have h1 : (w.copied i ops).abs[w.objs.length]'(by simpa [RWorld.abs] using hn') =
+        (w.copied i ops).objs[w.objs.length].val (w.copied i ops).heap := by simp [RWorld.abs]
+    rw [← h1]
+    have : w.objs.length = w.abs.length := by simp [RWorld.abs]
+    simp only [habs, this, List.getElem_append_right (le_refl _)]
+    simp
+  rw [(w.copied i ops).abs_inplace hs' _ hn' ops2 (by rw [hobj']; simpa using hl2), hlast, habs]
+  have : w.objs.length = w.abs.length := by simp [RWorld.abs]
+  rw [this, List.set_append_right _ _ (le_refl _)]
+  simp
+
 end HcipyVerif.Grid
